@@ -34,6 +34,8 @@ pub fn op_kind(op: &Op) -> &'static str {
         Op::Repos { .. } => "reposition",
         Op::IncTa { .. } => "inc_wrong_array",
         Op::InitTa { .. } => "init_tick_array_again",
+        Op::InitTaUnaligned { .. } => "init_tick_array_unaligned",
+        Op::IncVia { .. } => "inc_via_named_arrays",
         Op::CollectFees { .. } => "collect_fees",
         Op::CollectProtocol { .. } => "collect_protocol",
         Op::Clock(_) => "clock",
